@@ -50,6 +50,10 @@ extern "C" void harness() {
   { ST st3; for (int m = 1; m < NS; m++) if (shape[m]) { bool maximal = true; for (int t = 1; t < NS; t++) if (t != m && shape[t] && (t & m) == m) maximal = false; if (maximal) st3.insert_simplex_and_subfaces(word(m), f[m]); }
     for (int m = 1; m < NS; m++) if (shape[m]) st3.assign_filtration(st3.find(word(m)), f[m]); st3.clear_filtration();
     int r3 = 0; for (auto sh : st3.filtration_simplex_range()) { int m = mask_of(st3, sh); vp_assert(rank[m] == r3, "same sequence after insertion by maximal simplices + assign_filtration"); r3++; } }
+  { // the range is a function of the current complex: it must follow a modification made after it was first computed
+    int top = -1; for (int m = NS - 1; m >= 1; m--) if (shape[m]) { bool mx = true; for (int t = 1; t < NS; t++) if (t != m && shape[t] && (t & m) == m) mx = false; if (mx && pcnt(m) > 1) { top = m; break; } }
+    if (top > 0) { st.remove_maximal_simplex(st.find(word(top))); st.clear_filtration(); /* documented: the caller drops the cache after modifying the complex by hand */ int r4 = 0; bool gone = true; for (auto sh : st.filtration_simplex_range()) { if (mask_of(st, sh) == top) gone = false; r4++; } vp_assert(gone && r4 == cnt - 1, "after clear_filtration the range follows a removal made since it was first computed"); vp_reach("range-after-removal"); }
+    std::vector<int> nv; nv.push_back(N + 3); st.insert_simplex(nv, 0.0); st.clear_filtration(); int r5 = 0; bool seen_new = false; for (auto sh : st.filtration_simplex_range()) { if (st.dimension(sh) == 0 && *st.simplex_vertex_range(sh).begin() == N + 3) seen_new = true; r5++; } vp_assert(seen_new && r5 == (top > 0 ? cnt : cnt + 1), "after clear_filtration the range follows an insertion made since it was first computed"); }
 #elif VP_MODE == 1
   for (int m = 1; m < NS; m++) if (shape[m]) f[m] = (double)vp_int("f", 0, VP_VMAX);   // arbitrary, possibly non-monotone
   ST st; for (int m = 1; m < NS; m++) if (shape[m]) st.insert_simplex(word(m), f[m]);
@@ -75,6 +79,7 @@ extern "C" void harness() {
   double g[N]; for (int i = 0; i < N; i++) g[i] = vp_double_grid_forked("g", 0.0, 0.5, VP_VMAX * 2 + 1);
   ST st; for (int m = 1; m < NS; m++) if (shape[m]) { double mx = g[__builtin_ctz(m)]; for (int i = 0; i < N; i++) if ((m >> i & 1) && g[i] > mx) mx = g[i]; st.insert_simplex(word(m), mx); }
   double mn = g[0], mxv = g[0]; for (int i = 1; i < N; i++) { if (g[i] < mn) mn = g[i]; if (g[i] > mxv) mxv = g[i]; }
+  if (vp_fork_int(vp_int("warm", 0, 1))) { int c0 = 0; for (auto sh : st.filtration_simplex_range()) { (void)sh; c0++; } vp_assert(c0 > 0, "range before the extension"); vp_reach("warm-cache"); }   // a filled filtration cache must not survive the extension
   auto efd = st.extend_filtration();
   vp_assert(efd.minval == mn && efd.maxval == mxv, "extend_filtration returns the range of the vertex function");
   int cnt = 0; for (int m = 1; m < NS; m++) if (shape[m]) cnt++;
@@ -90,6 +95,7 @@ extern "C" void harness() {
     // descending upper-star on the coned simplices: value of the earliest vertex, rescaled to [1,2]
     vp_assert(st.filtration(ch) == 2 - (lo - mn) * scale, "descending part: rescaled minimum over the vertices");
     auto d2 = st.decode_extended_filtration(st.filtration(ch), efd); vp_assert(d2.second == Gudhi::Extended_simplex_type::DOWN, "coned simplices are of type DOWN"); vp_assert(std::fabs(d2.first - lo) <= 1e-9 * (1 + std::fabs(lo)), "decoding returns the original value (descending)"); }
+  { int r = 0; double last = -4; bool mono = true; for (auto sh : st.filtration_simplex_range()) { if (st.filtration(sh) < last) mono = false; last = st.filtration(sh); r++; } vp_assert(r == 2 * cnt + 1, "after the extension the filtration range lists every simplex of the cone exactly once"); vp_assert(mono, "the extended filtration range never decreases"); }
   { std::vector<int> cp; cp.push_back(N); auto sh = st.find(cp); vp_assert(sh != st.null_simplex() && st.filtration(sh) == -3, "cone point enters first"); auto d = st.decode_extended_filtration(st.filtration(sh), efd); vp_assert(d.second == Gudhi::Extended_simplex_type::EXTRA, "the cone point is of type EXTRA"); }
 #endif
   vp_reach("end");
